@@ -197,8 +197,10 @@ def k_rules(p: Project, rep: Report):
             goal_items = []
             mention = False
             for cw in facts:
-                for a, e in _atom_exprs(cw[0]):
-                    if "status.code" not in a:
+                for a, e0 in _atom_exprs(cw[0]):
+                    # the condition may test a local that holds the status code: look through locals on this path
+                    e = value_on_path(q, cfg, e0, upto=cw.pos, depth=1) if "status.code" not in a else e0
+                    if "status.code" not in text(e):
                         continue
                     # which side carries the status code
                     operand = None
@@ -309,8 +311,9 @@ def k_rules(p: Project, rep: Report):
             continue
         facts = simple_conds(q.conds)
         for cw in q.conds:
-            for a, e in _atom_exprs(cw[0]):
-                if isinstance(e, ast.Compare) and isinstance(e.ops[0], ast.Eq) and "status.code" in a:
+            for a, e0 in _atom_exprs(cw[0]):
+                e = value_on_path(q, cfg, e0, upto=cw.pos, depth=1) if "status.code" not in a else e0
+                if isinstance(e, ast.Compare) and isinstance(e.ops[0], ast.Eq) and "status.code" in text(e):
                     sides = [e.left, e.comparators[0]]
                     const = [s_ for s_ in sides if isinstance(s_, ast.Constant)]
                     code = [s_ for s_ in sides if text(s_).endswith("status.code")]
